@@ -384,7 +384,8 @@ DETAIL = f'sequential mode with lists of 3 and 2 values: the parallel path prepa
                 ok = False
                 for ev in p.st.events:
                     if ev[0] == "lib_call" and ev[1].endswith("MultiIndex.from_product"):
-                        lists = [p.ex.try_list(x) for x in (p.ex.try_list(ev[2][0]) or [])]
+                        it_arg = ev[2][0] if ev[2] else ev[3].get("iterables")       # MultiIndex.from_product(iterables, sortorder, names)
+                        lists = [p.ex.try_list(x) for x in ((p.ex.try_list(it_arg) if it_arg is not None else None) or [])]
                         names = [x.v for x in (p.ex.try_list(ev[3].get("names")) or [])]
                         ok = len(lists) == 2 and all(len(lists[j]) == shape[j] and all(same(lists[j][i], holder["vals"][j][i]) for i in range(shape[j])) for j in range(2)) and names == ["k0", "k1"]
                 u.oblige(p, "parallel.params[product]", bool(ok), {}, PAR_REPLAY)
@@ -394,8 +395,8 @@ DETAIL = f'sequential mode with lists of 3 and 2 values: the parallel path prepa
                     return v.info if isinstance(v, VOpaque) else {}
                 r = prov(p.value)
                 ser = prov(prov(r.get("fn")).get("of")) if prov(r.get("fn")).get("attr") == "to_xarray" else {}
-                data = (ser.get("args") or [None])[0] if ser.get("label") == "pandas.Series()" else None
-                idx = (ser.get("kwargs") or {}).get("index")
+                data = ((ser.get("args") or [None])[0] if ser.get("args") else (ser.get("kwargs") or {}).get("data")) if ser.get("label") == "pandas.Series()" else None      # Series(data, index, ...)
+                idx = (ser.get("kwargs") or {}).get("index", (ser.get("args") or [None, None])[1] if len(ser.get("args") or []) > 1 else None)
                 ok2 = (isinstance(idx, VOpaque) and prov(idx).get("label") == "pandas.MultiIndex.from_product()" and isinstance(data, VOpaque)
                        and prov(data).get("of") is idx and str(prov(data).get("label", "")).startswith("list(")
                        and sum(1 for ev in p.st.events if ev[0] == "lib_call" and ev[1].endswith("MultiIndex.from_product")) == 1)
